@@ -526,7 +526,25 @@ func (ws *walkState) judgeQuaiLedger(b *types.WorkObject) {
 		case ok:
 			m.Eval("ledger:quai-delta-as-expected", b.Hash().Hex()+addr.Hex())
 		case len(whys) == 0:
-			m.Violation("ledger:quai-balance-changes-without-conversion-event:"+h.tracked[a], fmt.Sprintf("%s: block %d account %s (%s) changed by %s", tag, num, addr.Hex(), h.tracked[a], got), w)
+			sig := "ledger:quai-balance-changes-without-conversion-event:" + h.tracked[a]
+			// a recipient whose credit is still locked (or whose conversion was refused) must not change at all
+			for _, c := range h.order {
+				if c.Dir == dirQiToQuai && c.Recipient.Bytes20() == a && got.Sign() > 0 {
+					switch {
+					case c.dest == nil || c.dest.Block.NumberU64(common.ZONE_CTX) >= num:
+						sig = "ledger:qi->quai-recipient-credited-before-the-conversion-executed"
+					case c.dest.Etx.EtxType() == types.ConversionRevertType:
+						sig = "ledger:qi->quai-recipient-credited-although-conversion-was-reverted"
+					case num < c.dest.Block.NumberU64(common.ZONE_CTX)+params.ConversionLockPeriod:
+						sig = "ledger:qi->quai-recipient-credited-before-execution-height-plus-lock-period"
+					}
+					for k, v := range h.convWit(c) {
+						w[k] = v
+					}
+					break
+				}
+			}
+			m.Violation(sig, fmt.Sprintf("%s: block %d account %s (%s) changed by %s", tag, num, addr.Hex(), h.tracked[a], got), w)
 		case got.Cmp(want) > 0:
 			m.Violation("ledger:quai-credited-more-than-expected:"+sigOf(whys), fmt.Sprintf("%s: block %d account %s: observed %s, expected %s (%v)", tag, num, addr.Hex(), got, want, whys), w)
 		default:
